@@ -405,6 +405,13 @@ impl Task {
 
         match action.event {
             EventAction::Push => {
+                // a step that has ended takes no new acts
+                if self.state().is_completed() {
+                    return Err(ActError::Action(format!(
+                        "task '{}:{}' is already completed",
+                        self.pid, self.id
+                    )));
+                }
                 let package = ctx.get_var::<String>("uses").unwrap_or_default();
                 let key = ctx.get_var::<String>("key").unwrap_or_default();
                 let act = Act {
